@@ -38,7 +38,7 @@ TABLE = {
     "tech:turbo": ("flag", ["tech:turbo", "turbo", "trb"]),
 }
 WILD = {"wc_int": ("int", [("obj:", ":priority"), ("obj_", "_priority")]), "wc_dbl": ("dbl", [("obj:", ":weight"), ("obj_", "_weight")])}
-UNKNOWN = ["bogus", "lim:itr", "iterlimx", "obj:priority", "tech:", "x", "timelim2", "obj:*:priority", "ITER_LIM"]
+UNKNOWN = ["bogus", "lim:itr", "iterlimx", "obj:priority", "tech:", "x", "timelim2", "obj:*:priority", "ITER_LIM", "obj_*_weight", "obj_*_priority", "OBJ_*_WEIGHT"]
 
 
 def near_misses():
